@@ -526,7 +526,7 @@ func TestVerifC03(t *testing.T) {
 		}
 	}()
 	verifutil.Main(t, &verifutil.Harness{
-		ID: "C03", Exec: verifC03Exec, Gen: verifC03Gen, Quick: 1500, Thorough: 20000,
+		ID: "C03", Exec: verifC03Exec, Gen: verifC03Gen, Quick: 1000, Thorough: 20000,
 		Class: func(op, impl string) string {
 			o := strings.Fields(op)[0]
 			a := strings.Fields(impl)
